@@ -71,6 +71,10 @@ pub struct RenderCase {
     /// sequence (ESC ]), 2 an unterminated CSI sequence (ESC [), 3 a DCS introducer (ESC P), 4 NUL and BEL
     #[serde(default)]
     pub awkward: u8,
+    /// all outcomes of the list carry the same line number (test cases of a prepended document are reported under the
+    /// location of the main document with the line numbers of their own file: two results can share location and line)
+    #[serde(default)]
+    pub same_line: bool,
 }
 
 static COLOUR_SWITCH: std::sync::RwLock<()> = std::sync::RwLock::new(());
@@ -90,7 +94,7 @@ fn build_outcome(i: usize, atom: &Atom, case: &RenderCase) -> Option<(Outcome, &
         shell_expression: format!("cmd{i}{}", if case.awkward == 0 { String::new() } else { format!("; echo \"{}\"", AWKWARD[case.awkward as usize]) }),
         expectations: vec![],
         exit_code: None,
-        line_number: case.line_number + i * 10,
+        line_number: if case.same_line { case.line_number } else { case.line_number + i * 10 },
         config: Default::default(),
     };
     let mut output = Output { stdout: b"x\n".to_vec().into(), stderr: b"err\n".to_vec().into(), exit_code: ExitStatus::Code(0) };
@@ -268,6 +272,7 @@ impl Engine for VcRender {
                                     absolute,
                                     surrounding,
                                     awkward: 0,
+                                    same_line: false,
                                 })
                             })
                         })
@@ -293,7 +298,15 @@ impl Engine for VcRender {
                 let params = params.clone();
                 [false, true].into_iter().flat_map(move |ascii| {
                     let atoms = atoms.clone();
-                    params.clone().into_iter().map(move |(renderer, absolute, surrounding)| RenderCase { atoms: atoms.clone(), location, cram: ascii, ascii, line_number: 7, renderer, absolute, surrounding, awkward: 0 })
+                    let atoms2 = atoms.clone();
+                    params.clone().into_iter().flat_map(move |(renderer, absolute, surrounding)| {
+                        let base = RenderCase { atoms: atoms2.clone(), location, cram: ascii, ascii, line_number: 7, renderer, absolute, surrounding, awkward: 0, same_line: false };
+                        let mut v = vec![base.clone()];
+                        if location && atoms2.len() >= 2 && surrounding == 5 && !absolute {
+                            v.push(RenderCase { same_line: true, ..base });
+                        }
+                        v
+                    })
                 })
             })
         });
@@ -306,7 +319,7 @@ impl Engine for VcRender {
                 [0usize, 1, 3].into_iter().flat_map(move |lines| {
                     let params3 = params3.clone();
                     [1usize, 89, 98].into_iter().flat_map(move |line_number| {
-                        params3.clone().into_iter().map(move |(renderer, absolute, surrounding)| RenderCase { atoms: vec![Atom::LongList { len, required_at, lines }], location: true, cram: false, ascii: false, line_number, renderer, absolute, surrounding, awkward: 0 })
+                        params3.clone().into_iter().map(move |(renderer, absolute, surrounding)| RenderCase { atoms: vec![Atom::LongList { len, required_at, lines }], location: true, cram: false, ascii: false, line_number, renderer, absolute, surrounding, awkward: 0, same_line: false })
                     })
                 })
             })
@@ -322,7 +335,7 @@ impl Engine for VcRender {
             let params4 = params4.clone();
             [false, true].into_iter().flat_map(move |cram| {
                 let items = items.clone();
-                params4.clone().into_iter().map(move |(renderer, absolute, surrounding)| RenderCase { atoms: vec![Atom::Shape { items: items.clone() }], location: true, cram, ascii: false, line_number: 3, renderer, absolute, surrounding, awkward: 0 })
+                params4.clone().into_iter().map(move |(renderer, absolute, surrounding)| RenderCase { atoms: vec![Atom::Shape { items: items.clone() }], location: true, cram, ascii: false, line_number: 3, renderer, absolute, surrounding, awkward: 0, same_line: false })
             })
         });
         // (e) text that is shown unescaped (shell expression, title) holding escape sequence introducers
@@ -338,7 +351,7 @@ impl Engine for VcRender {
             let reps2 = reps2.clone();
             words(reps2.len(), 2).into_iter().flat_map(move |w| {
                 let atoms: Vec<Atom> = w.iter().map(|i| reps2[*i].clone()).collect();
-                (0..6u8).map(move |renderer| RenderCase { atoms: atoms.clone(), location: true, cram: false, ascii: false, line_number: 7, renderer, absolute: false, surrounding: 5, awkward: awk })
+                (0..6u8).map(move |renderer| RenderCase { atoms: atoms.clone(), location: true, cram: false, ascii: false, line_number: 7, renderer, absolute: false, surrounding: 5, awkward: awk, same_line: false })
             })
         });
         Box::new(lists.chain(long).chain(shapes).chain(awkward).chain(singles))
@@ -350,7 +363,7 @@ impl Engine for VcRender {
         };
         let shape_len = if matches!(tier, Tier::Quick) { 4 } else { 5 };
         format!(
-            "(a) single failed outcomes whose diff is produced by the real validate for every expectation list <= {max_e} x output <= {max_l} lines over {} texts (multi-byte, wide, trailing Unicode whitespace, NUL, ESC, 0xFF, 10000-char line, empty, glob) with/without final newline x both escapers x line numbers {{1,98,9999}} x 16 renderer settings (pretty colour/mono x relative/absolute x 0/1/5 surrounding lines; diff; json; json pretty; yaml); (c) expectation lists of 9..12 entries of which all but one are optional and skipped (line numbering crosses 10 / 100), x 0/1/3 output lines x line numbers {{1,89,98}}; (d) every hand-built diff of <= {shape_len} items over {{matched, unmatched expectation, 1 unexpected line, 2 unexpected lines, expectation matched by 2 lines}} (also shapes that the diff tool of today does not produce, e.g. adjacent runs of unexpected lines) x Markdown/Cram x 6 renderer settings; (e) all outcome pairs over 6 representatives whose shell expression and title (shown unescaped) hold an unterminated OSC / CSI / DCS introducer or NUL+BEL x 6 renderers; (b) all outcome lists of length <= {list_len} over 7 representatives of the result kinds x location present/absent x escaper x the same renderer settings",
+            "(a) single failed outcomes whose diff is produced by the real validate for every expectation list <= {max_e} x output <= {max_l} lines over {} texts (multi-byte, wide, trailing Unicode whitespace, NUL, ESC, 0xFF, 10000-char line, empty, glob) with/without final newline x both escapers x line numbers {{1,98,9999}} x 16 renderer settings (pretty colour/mono x relative/absolute x 0/1/5 surrounding lines; diff; json; json pretty; yaml); (c) expectation lists of 9..12 entries of which all but one are optional and skipped (line numbering crosses 10 / 100), x 0/1/3 output lines x line numbers {{1,89,98}}; (d) every hand-built diff of <= {shape_len} items over {{matched, unmatched expectation, 1 unexpected line, 2 unexpected lines, expectation matched by 2 lines}} (also shapes that the diff tool of today does not produce, e.g. adjacent runs of unexpected lines) x Markdown/Cram x 6 renderer settings; (e) all outcome pairs over 6 representatives whose shell expression and title (shown unescaped) hold an unterminated OSC / CSI / DCS introducer or NUL+BEL x 6 renderers; (b) all outcome lists of length <= {list_len} (lists with location also with one line number shared by all outcomes) over 7 representatives of the result kinds x location present/absent x escaper x the same renderer settings",
             texts().len()
         )
     }
